@@ -70,6 +70,7 @@ func newGraphBuilder(stateful bool) *gBuilder {
 	}{
 		{"a", []string{"b", E}},
 		{"b", []string{"a", E}},
+		{"a", []string{"a", E}}, // loops back to its own start node (the ReAct shape): a cycle in all-predecessor mode
 		{S, []string{"a", E}},
 		{"p", []string{"a", E}},
 		{"a", []string{"b"}},        // single target
@@ -103,7 +104,7 @@ type gState struct {
 	status int
 	nodes  uint8
 	edges  uint32
-	br     [8]uint8
+	br     [9]uint8
 	// dead
 	deadBy      int
 	deadPos     int
